@@ -68,7 +68,17 @@ fn replay_body(path: &str) {
                     let mut locs: Vec<Vec<String>> = vh::recv::leaves_of(&t, e).into_iter().map(|l| l.path).collect();
                     let mut exp: Vec<Vec<String>> = c["expect"]["failures"].as_array().unwrap().iter().map(|p| p.as_array().unwrap().iter().map(|s| s.as_str().unwrap().to_string()).collect()).collect();
                     locs.sort(); exp.sort();
-                    if locs != exp { why.push(format!("BD{} {}: failures reported at {:?}, expected {:?}", i, declared, locs, exp)); }
+                    // one leaf per failing member, located at (or, for a wrong value, below) the member: the expected path
+                    // is a prefix of the reported one; longest expectations are matched first
+                    let mut used = vec![false; locs.len()];
+                    let mut ok = locs.len() == exp.len();
+                    let mut order: Vec<&Vec<String>> = exp.iter().collect();
+                    order.sort_by_key(|p| std::cmp::Reverse(p.len()));
+                    for p in order {
+                        let hit = (0..locs.len()).find(|j| !used[*j] && locs[*j] == *p).or_else(|| (0..locs.len()).find(|j| !used[*j] && locs[*j].len() >= p.len() && locs[*j][..p.len()] == p[..]));
+                        match hit { Some(j) => used[j] = true, None => ok = false }
+                    }
+                    if !ok { why.push(format!("BD{} {}: failures reported at {:?}, expected {:?}", i, declared, locs, exp)); }
                 }
             }
         }
